@@ -68,6 +68,10 @@ func genVec(t *rapid.T, label string, n int) []uint64 {
 func genC07(t *rapid.T) C07Case {
 	c := C07Case{K: rapid.SampledFrom(c07Kernels).Draw(t, "k")}
 	n := rapid.IntRange(0, 70).Draw(t, "n")
+	if rapid.IntRange(0, 11).Draw(t, "long") == 0 {
+		// far beyond the unrolled bodies: block-copy style fast paths have their own thresholds (128, 256, 512 words)
+		n = rapid.SampledFrom([]int{127, 128, 129, 255, 256, 257, 258, 300, 511, 512, 513, 600}).Draw(t, "nlong") + rapid.IntRange(0, 3).Draw(t, "nlongoff")
+	}
 	shape := func(opts ...string) {
 		c.Shape = rapid.SampledFrom(append([]string{""}, opts...)).Draw(t, "shape")
 	}
@@ -101,6 +105,19 @@ func genC07(t *rapid.T) C07Case {
 			c.W = uint64(rapid.IntRange(0, 1).Draw(t, "c"))
 		}
 		shape("inplace")
+		// decKaratsubaAdd/Sub call these with a source longer than the destination: add10VW(z[n:n+n>>1], z[n:], c)
+		c.Ext = rapid.SampledFrom([]int{0, 0, 1, 3, 40}).Draw(t, "ext")
+		if c.Ext > 0 && rapid.Bool().Draw(t, "extnines") {
+			// a carry/borrow that runs through the whole destination and must be returned, not pushed into the extra words
+			fill := uint64(h.Base - 1)
+			if c.K == "sub10VW" {
+				fill = 0
+			}
+			for i := range c.X {
+				c.X[i] = fill
+			}
+			c.W = 1
+		}
 	case "shl10VU", "shr10VU":
 		c.X = genVec(t, "x", n)
 		c.S = uint(rapid.IntRange(0, 18).Draw(t, "s"))
@@ -495,9 +512,18 @@ func TestC07Grid(t *testing.T) {
 			}
 		}
 	}
+	vwLens := []int{}
+	for l := 0; l <= 70; l++ {
+		vwLens = append(vwLens, l)
+	}
+	vwLens = append(vwLens, 127, 128, 129, 255, 256, 257, 258, 259, 260, 261, 300, 511, 512, 513, 514, 515, 516, 600)
 	for _, k := range []string{"add10VW", "sub10VW"} {
-		for l := 0; l <= 70; l++ {
-			for stop := 0; stop <= l; stop++ {
+		for _, l := range vwLens {
+			step := 1
+			if l > 70 {
+				step = 1 + l/40
+			}
+			for stop := 0; stop <= l; stop += step {
 				// carry/borrow propagates through 'stop' words and dies there
 				x := make([]uint64, l)
 				for i := range x {
@@ -512,6 +538,9 @@ func TestC07Grid(t *testing.T) {
 				}
 				for _, sh := range []string{"", "inplace"} {
 					runCase(C07Case{K: k, X: x, W: 1, Shape: sh})
+					if l <= 70 && stop%3 == 0 {
+						runCase(C07Case{K: k, X: x, W: 1, Shape: sh, Ext: 2})
+					}
 				}
 			}
 		}
@@ -570,7 +599,7 @@ func TestC07Grid(t *testing.T) {
 	h.AddExtra("C07", "grid_cases_enumerated", n)
 }
 
-const ruleC07 = "kernel half: rapid-generated calls of the 12 decimal kernels and divWVW through the hook exports, within the call-site preconditions only (words < 10^19, dividend high word < divisor, shift 0..18): vector lengths 0..70 (all residues mod 4, the >=5-word copy fast paths), words from {0,1,10^19-1,5*10^18,10^k,10^k-1,2^32,2^63-1,...} in runs plus uniform, low-end carry/borrow chains with a chosen terminator position, scalar operands from the same sets, destination fresh (poisoned), equal to x, equal to y, or overlapping x inside one array the way dec.shl/dec.shr call it. Oracle: assembly output == portable twin output (vector and carry/borrow/remainder) and both == the big.Int definition. Enumerated completely on every run: shift 0..18 x length 0..70 x {fresh, in place, overlap 1, overlap 3} for shl/shr; length 0..70 x carry-dies-at-every-position x {fresh, in place} for add10VW/sub10VW; length x carry/borrow chain x {fresh, in place x, in place y} x {equal length, longer sources} for add10VV/sub10VV; length 0..70 x extreme scalars for mulAdd10VWW/addMul10VVW/div10VWW. Non-trivial = length >= 5, or shift != 0, or an aliased destination. Program half: see samples of kind 'program' (same public operation sequence executed by three builds: default, decimal_pure_go, decimal_pure_go+math_big_pure_go; per-step snapshots compared)."
+const ruleC07 = "kernel half: rapid-generated calls of the 12 decimal kernels and divWVW through the hook exports, within the call-site preconditions only (words < 10^19, dividend high word < divisor, shift 0..18): vector lengths 0..70 (all residues mod 4, the >=5-word copy fast paths) and, in one case of twelve, lengths around 128, 256, 512 and 600, words from {0,1,10^19-1,5*10^18,10^k,10^k-1,2^32,2^63-1,...} in runs plus uniform, low-end carry/borrow chains with a chosen terminator position, scalar operands from the same sets, destination fresh (poisoned), equal to x, equal to y, or overlapping x inside one array the way dec.shl/dec.shr call it; sources longer than the destination the way decAddAt, divBasic and decKaratsubaAdd/Sub call the VV and VW kernels (extra words must be ignored and left untouched). Oracle: assembly output == portable twin output (vector and carry/borrow/remainder) and both == the big.Int definition. Enumerated completely on every run: shift 0..18 x length 0..70 x {fresh, in place, overlap 1, overlap 3} for shl/shr; length 0..70 x carry-dies-at-every-position x {fresh, in place} for add10VW/sub10VW; length x carry/borrow chain x {fresh, in place x, in place y} x {equal length, longer sources} for add10VV/sub10VV; length 0..70 x extreme scalars for mulAdd10VWW/addMul10VVW/div10VWW. Non-trivial = length >= 5, or shift != 0, or an aliased destination. Program half: see samples of kind 'program' (same public operation sequence executed by three builds: default, decimal_pure_go, decimal_pure_go+math_big_pure_go; per-step snapshots compared)."
 
 var propC07 = &h.Prop[C07Case]{ID: "C07", Rule: ruleC07, Gen: genC07, Check: checkC07, Matchers: map[string]func(C07Case) bool{},
 	Filter: func(path string) bool { return !strings.Contains(path, "prog-") }}
